@@ -14,6 +14,28 @@ from extract import ExtractError, lean_string
 KINDS = ('ent', 'solid', 'face', 'group', 'vis', 'node')
 
 
+# sites the model knows: code < 20 must be present (the model executes them unconditionally),
+# 20..29 are optional and switch a Cfg flag; anything else gets 999 (an id is allocated or released
+# somewhere the model has never heard of).
+SITE_CODES = {
+    ('Entity.__init__', 'ent', 'get_id'): 1,
+    ('Entity.__del__', 'ent', 'discard'): 2,
+    ('Solid.__attrs_post_init__', 'solid', 'get_id'): 3,
+    ('Solid.__del__', 'solid', 'discard'): 4,
+    ('Side.__init__', 'face', 'get_id'): 5,
+    ('Side.__del__', 'face', 'discard'): 6,
+    ('VisGroup.__attrs_post_init__', 'vis', 'get_id'): 7,
+    ('EntityGroup.__attrs_post_init__', 'group', 'get_id'): 8,
+    ('Entity.__setitem__', 'node', 'discard'): 9,
+    ('Entity.__setitem__', 'node', 'get_id'): 10,
+    ('Entity.__delitem__', 'node', 'discard'): 11,
+    ('VMF.remove_ent', 'ent', 'discard'): 20,
+    ('VMF.remove_ent', 'node', 'discard'): 21,
+    ('VMF.add_ent', 'node', 'get_id'): 22,
+    ('VMF.add_ents', 'node', 'get_id'): 23,
+}
+
+
 def _norm(node):
     return ast.unparse(node).replace(' ', '')
 
@@ -131,6 +153,12 @@ def generate(repo):
         keeps = True
     else:
         raise ExtractError('VMF.parse: unrecognised handling of the placeholder spawn entity')
+    rm = _method(tree, 'VMF', 'remove_ent')
+    rb = _body(rm)
+    spawn_raises = bool(rb) and isinstance(rb[0], ast.If) and _norm(rb[0].test) == 'itemisself.spawn' \
+        and len(rb[0].body) == 1 and isinstance(rb[0].body[0], ast.Raise) and not rb[0].orelse
+    if not spawn_raises and 'self.spawn' in _norm(rm):
+        raise ExtractError('VMF.remove_ent: unrecognised treatment of self.spawn')
     b = lambda x: 'true' if x else 'false'
     lines = [
         'import Srctools.Model.C08',
@@ -142,9 +170,13 @@ def generate(repo):
         ',\n'.join(f'  ({lean_string(q)}, {lean_string(k)}, {lean_string(m)})' for q, k, m in sites),
         ']',
         '',
+        '/-- the same as sorted codes: 1..11 = sites the model always executes, 20..23 = sites behind a `cfg` flag,',
+        '999 = a site the model does not know. -/',
+        'def siteCodes : List Nat := [' + ', '.join(str(c) for c in sorted(SITE_CODES.get(s, 999) for s in sites)) + ']',
+        '',
         '/-- release sites / guards the model is run with. -/',
         'def cfg : C08.Cfg :=',
-        f'  {{ removeEntDiscardsEntId := {b(rm_ent)}, removeEntDiscardsNodeId := {b(rm_node)}, discardGuard := {b(g1)},\n    addEntAllocatesNode := {b(add_node)}, popReleasesNode := {b(pop_del)},\n    parseKeepsPlaceholder := {b(keeps)} }}',
+        f'  {{ removeEntDiscardsEntId := {b(rm_ent)}, removeEntDiscardsNodeId := {b(rm_node)}, discardGuard := {b(g1)},\n    addEntAllocatesNode := {b(add_node)}, popReleasesNode := {b(pop_del)},\n    parseKeepsPlaceholder := {b(keeps)}, removeSpawnRaises := {b(spawn_raises)} }}',
         '',
         'end Gen.C08',
         '',
